@@ -224,6 +224,10 @@ def cases_AD(tier):
                     yield {'o': 'A', 'file': rel, 'idx': [0, n - 1], 'via': 'last'}
                     yield {'o': 'A', 'file': rel, 'idx': [0, n - 1], 'via': 'time'}
             if n >= 2: yield {'o': 'A', 'file': rel, 'idx': [n // 2, 0, n - 1], 'via': 'difference'}
+            if n >= 2:
+                for pre in ('rewind', 'reductions'):
+                    yield {'o': 'A', 'file': rel, 'idx': [0, n - 1, n - 1, 0], 'via': 'negative', 'pre': pre}
+                    yield {'o': 'A', 'file': rel, 'idx': [n - 1, n - 1], 'via': 'last', 'pre': pre}
             # another listing, written by another simulator, is opened (and stepped) while this one is in use
             others = sorted((r for r in GL.shipped() if fam(r) != fam(rel)), key=lambda r: (GL.size_of(r), r))
             seen = set()
@@ -366,6 +370,13 @@ def run_A(case, R):
                 with R.lib('open-companion'):
                     companion = GL.open_listing(GL.path_of(case['companion']))
                     companion.next(); companion.first()
+            if case.get('pre') and nvis > 0:
+                # a call that leaves the reader 'before the first results' (documented: rewind() reads nothing; the
+                # reductions scan ends the same way) between two visits
+                R.label('pre:' + case['pre'])
+                with R.lib('pre-' + case['pre']):
+                    if case['pre'] == 'rewind': lst.rewind()
+                    else: lst.reductions
             with R.lib('index'):
                 if via == 'negative': lst.index = bi - n
                 elif via == 'last' and bi == n - 1: lst.last()
